@@ -1049,4 +1049,39 @@ def frun (cv : CallerVariant) (beh : SBeh) : FSt → List FEv → FSt × List Ou
     let rest := frun cv beh r.1 es
     (rest.1, r.2.outs ++ rest.2)
 
+/-! ### who owns the data of a write (input aliasing)
+
+`_WriteRequest.__init__` keeps the object the caller passed (`self._data = data`: `AliasVariant.ctorCopies = false`,
+Tie A `writeCtorCopiesData`) or a copy.  `_write_new_chunk` replaces `self._data` by a fresh slice
+(`self._data = self._data[new_len:]`) the first time it runs, so a request that has been STARTED (the head of its queue)
+owns its remaining data; a request waiting in the queue still refers to the caller's buffer.  `refill tag data`: the
+application overwrites, in place and with the same length, the buffer it passed to `write(tag ..)`. -/
+
+structure AliasVariant where
+  ctorCopies : Bool
+  deriving DecidableEq, Repr
+
+def AliasVariant.code : AliasVariant := ⟨Gen.C06.writeCtorCopiesData⟩
+
+/-- the waiting (not started) requests of a queue that were given buffer `tag` now see `data` -/
+def refillQueue (tag : Nat) (data : List UInt8) : List WReq → List WReq
+  | [] => []
+  | h :: waiting => h :: waiting.map fun w => if w.tag = tag ∧ w.rest.length = data.length then { w with rest := data } else w
+
+def refillSt (av : AliasVariant) (s : St) (tag : Nat) (data : List UInt8) : St :=
+  if av.ctorCopies then s else { s with writes := s.writes.map fun e => (e.1, refillQueue tag data e.2) }
+
+inductive AEv
+  | mem (e : Ev)
+  | refill (tag : Nat) (data : List UInt8)
+  deriving DecidableEq, Repr
+
+def arun (av : AliasVariant) : St → List AEv → St × List Out
+  | s, [] => (s, [])
+  | s, .refill t d :: es => arun av (refillSt av s t d) es
+  | s, .mem e :: es =>
+    let r := step Variant.fixed s e
+    let rest := arun av r.st es
+    (rest.1, r.outs ++ rest.2)
+
 end CfVerif.C06
